@@ -1,7 +1,7 @@
 (* JsonModel.v -- executable model of the JSON reader and writer of Qentem
    (definitions only; proofs in JsonProofs*.v).
 
-   Modelled C++ (after the repairs D2, D11, D15, D16, D61, D62, D63, D81 of this component and
+   Modelled C++ (after the repairs D2, D11, D15, D16, D61, D62, D63, D81, D92 of this component and
    D28, D43, D44, D45 of the digit component -- see /verif/findings):
      Include/JSON.hpp        Parse, parseObject, parseArray, parseValue
      Include/JSONUtils.hpp   UnEscape<true>, Escape, JSONotation_T (via gen/Tables_json.v)
@@ -170,12 +170,19 @@ Fixpoint unesc (f : nat) (w : N) (r : list N) (k : nat) (pend st : list N) : jre
               if negb (N.land code 64512 =? 55296) then           (* D11: (code & 0xFC00) != 0xD800 *)
                 unesc f' w r6 (6 + k) [] (st1 ++ to_utf w code)
               else if (5 <? length r6)%nat then
-                let code1 := m32 (N.shiftl (N.lxor code 55296) 10) in
-                r8 <- advn 2154 2 r6 ;;
-                lo <- hexrd 2156 4 r8 0 ;;
-                let code2 := m32 (m32 (code1 + N.land lo 1023) + 65536) in
-                r12 <- advn 2161 4 r8 ;;
-                unesc f' w r12 (12 + k) [] (st1 ++ to_utf w code2)
+                (* D92: the low half must follow as another \u escape -- content[offset] and
+                   content[offset + 1] are read (in bounds: more than 5 units are left) *)
+                b0 <- rd 2158 r6 ;;
+                r7 <- adv 2159 r6 ;;
+                b1 <- rd 2159 r7 ;;
+                if (b0 =? jc_bslash) && ((b1 =? jc_cu) || (b1 =? jc_u)) then
+                  let code1 := m32 (N.shiftl (N.lxor code 55296) 10) in
+                  r8 <- advn 2154 2 r6 ;;
+                  lo <- hexrd 2156 4 r8 0 ;;
+                  let code2 := m32 (m32 (code1 + N.land lo 1023) + 65536) in
+                  r12 <- advn 2161 4 r8 ;;
+                  unesc f' w r12 (12 + k) [] (st1 ++ to_utf w code2)
+                else JOk (O, st1)
               else JOk (O, st1)
             else JOk (O, st1)
           else JOk (O, st1)
